@@ -1,13 +1,15 @@
 pub mod common;
 pub mod c01;
+pub mod c04;
 
 use crate::engine::Property;
 
-pub const ALL_IDS: &[&str] = &["C01"];
+pub const ALL_IDS: &[&str] = &["C01", "C04"];
 
 pub fn build(id: &str) -> Option<Property> {
     match id {
         "C01" => Some(c01::build()),
+        "C04" => Some(c04::build()),
         _ => None,
     }
 }
